@@ -566,6 +566,17 @@ def _dump_float(value: float) -> Union[float, str]:
     return value
 
 
+class _PartialVarintError(EOFError):
+    """The stream ended after the first byte of a varint."""
+
+
+def _read_exactly(stream: "SupportsRead[bytes]", size: int) -> bytes:
+    data = stream.read(size)
+    if len(data) != size:
+        raise EOFError("Stream ended unexpectedly in the middle of a field.")
+    return data
+
+
 def load_varint(stream: "SupportsRead[bytes]") -> Tuple[int, bytes]:
     """
     Load a single varint value from a stream. Returns the value and the raw bytes read.
@@ -577,6 +588,10 @@ def load_varint(stream: "SupportsRead[bytes]") -> Tuple[int, bytes]:
             raise ValueError("Too many bytes when decoding varint.")
         b = stream.read(1)
         if not b:
+            if raw:
+                raise _PartialVarintError(
+                    "Stream ended unexpectedly in the middle of a varint."
+                )
             raise EOFError("Stream ended unexpectedly while attempting to load varint.")
         raw += b
         b_int = int.from_bytes(b, byteorder="little")
@@ -621,26 +636,33 @@ def load_fields(stream: "SupportsRead[bytes]") -> Generator[ParsedField, None, N
     while True:
         try:
             num_wire, raw = load_varint(stream)
+        except _PartialVarintError:
+            raise
         except EOFError:
             return
         number = num_wire >> 3
         wire_type = num_wire & 0x7
+        if number == 0:
+            raise ValueError("Field number 0 is not valid.")
 
         decoded: Any = None
         if wire_type == WIRE_VARINT:
             decoded, r = load_varint(stream)
             raw += r
         elif wire_type == WIRE_FIXED_64:
-            decoded = stream.read(8)
+            decoded = _read_exactly(stream, 8)
             raw += decoded
         elif wire_type == WIRE_LEN_DELIM:
             length, r = load_varint(stream)
-            decoded = stream.read(length)
+            decoded = _read_exactly(stream, length)
             raw += r
             raw += decoded
         elif wire_type == WIRE_FIXED_32:
-            decoded = stream.read(4)
+            decoded = _read_exactly(stream, 4)
             raw += decoded
+        else:
+            # 3 and 4 are (unsupported) proto2 groups, 6 and 7 do not exist
+            raise ValueError(f"Unsupported wire type {wire_type}.")
 
         yield ParsedField(number=number, wire_type=wire_type, value=decoded, raw=raw)
 
